@@ -7,6 +7,7 @@ sequence of reduction rounds) through `YgmVerif.BarrierME.step`.
   `contribute r <recvd> <sent>`   also compares the values the real rank contributed with the model's counters
   `result r <g0> <g1>`            also compares the reduction result the real rank consumed with the model's sums
   `state`                         dump
+  `exit r` answers `ok after=<j>`: the rank posted j rounds beyond the K of the first quiescent state of this barrier
 Answers: `ok …`, `reject <label>` (label not enabled: history not accepted), `mismatch …`. -/
 namespace Driver.BarrierME
 open YgmVerif.BarrierME Driver
@@ -14,26 +15,52 @@ open YgmVerif.BarrierME Driver
 structure DS where
   n : Nat
   s : Sys
+  dk : Option (Nat × Nat) := none     -- (epoch e, K): the first state of barrier e that was quiescent had max rounds K
 
-def dummy : DS := ⟨0, init⟩
+def dummy : DS := ⟨0, init, none⟩
+
+/-- the hypothesis of `C02ME_rounds_after_quiescence` / `C02ME_all_exit` holds now: nothing undelivered, every rank idle inside the
+same barrier; K = the rounds posted so far -/
+def deadNow (d : DS) : Option (Nat × Nat) :=
+  let rs := List.range d.n
+  if d.n > 0 && d.s.und == 0 &&
+      rs.all (fun r => d.s.inBar r && !d.s.busy r && d.s.cbs r == 0 && d.s.epoch r == d.s.epoch 0) then
+    some (d.s.epoch 0, rs.foldl (fun m r => max m (d.s.rounds r)) 0)
+  else none
+
+def note (d : DS) : DS :=
+  match deadNow d, d.dk with
+  | some (e, k), some (e', _) => if e == e' then d else { d with dk := some (e, k) }
+  | some x, none => { d with dk := some x }
+  | none, _ => d
 
 def doStep (d : DS) (l : Label) (name : String) : DS × String :=
   match step d.n d.s l with
-  | some s' => ({ d with s := s' }, "ok")
+  | some s' => (note { d with s := s' }, "ok")
   | none => (d, s!"reject {name}")
 
 def handle (d : DS) (line : String) : DS × String :=
   match words line with
   | ["init", n] =>
     match n.toNat? with
-    | some n => (⟨n, init⟩, "ok")
+    | some n => (⟨n, init, none⟩, "ok")
     | none => (d, "bad-op")
   | ["issue", r] => match r.toNat? with | some r => doStep d (.issue r) "issue" | none => (d, "bad-op")
   | ["start", r] => match r.toNat? with | some r => doStep d (.start r) "start" | none => (d, "bad-op")
   | ["finish", r] => match r.toNat? with | some r => doStep d (.finish r) "finish" | none => (d, "bad-op")
   | ["regcb", r] => match r.toNat? with | some r => doStep d (.regcb r) "regcb" | none => (d, "bad-op")
   | ["enter", r] => match r.toNat? with | some r => doStep d (.enter r) "enter" | none => (d, "bad-op")
-  | ["exit", r] => match r.toNat? with | some r => doStep d (.exit r) "exit" | none => (d, "bad-op")
+  | ["exit", r] =>
+    match r.toNat? with
+    | some r =>
+      let (d', o) := doStep d (.exit r) "exit"
+      if o == "ok" then
+        -- how many reduction rounds this rank posted beyond the K of the first quiescent state of its barrier (theorem: ≤ 2)
+        match d.dk with
+        | some (e, k) => if d.s.epoch r == e then (d', s!"ok after={d.s.rounds r - k} short={k - d.s.rounds r}") else (d', "ok nodead")
+        | none => (d', "ok nodead")
+      else (d', o)
+    | none => (d, "bad-op")
   | ["runcb", r, k, j] =>
     match r.toNat?, k.toNat?, j.toNat? with
     | some r, some k, some j => doStep d (.runcb r k j) "runcb"
@@ -54,7 +81,7 @@ def handle (d : DS) (line : String) : DS × String :=
       | some s' =>
         if d.s.accR k != a || d.s.accS k != b then
           ({ d with s := s' }, s!"mismatch result round={k} model=({d.s.accR k},{d.s.accS k}) real=({a},{b})")
-        else ({ d with s := s' }, "ok")
+        else (note { d with s := s' }, "ok")
     | _, _, _ => (d, "bad-op")
   | ["state"] =>
     let rs := (List.range d.n).map fun r =>
